@@ -17,9 +17,12 @@ const SOH = byte(0x01)
 type Field struct {
 	Tag   int
 	Value []byte
+	// Zeros: the tag is written with this many leading zeros ("058=": still tag 58). Only
+	// meaningful when building; a scanned field always has 0 here.
+	Zeros int
 }
 
-func F(tag int, value string) Field { return Field{tag, []byte(value)} }
+func F(tag int, value string) Field { return Field{Tag: tag, Value: []byte(value)} }
 
 func (f Field) String() string { return fmt.Sprintf("%d=%s", f.Tag, f.Value) }
 
@@ -85,7 +88,7 @@ func Scan(b []byte, honour map[int]int) ([]Field, error) {
 				pendingLen, pendingTag = n, dt
 			}
 		}
-		out = append(out, Field{tag, val})
+		out = append(out, Field{Tag: tag, Value: val})
 	}
 	return out, nil
 }
@@ -101,6 +104,9 @@ func trunc(b []byte) []byte {
 func Join(fields []Field) []byte {
 	var buf bytes.Buffer
 	for _, f := range fields {
+		for i := 0; i < f.Zeros; i++ {
+			buf.WriteByte('0')
+		}
 		buf.WriteString(strconv.Itoa(f.Tag))
 		buf.WriteByte('=')
 		buf.Write(f.Value)
